@@ -161,6 +161,8 @@ PROPS['C19'].update(engines=[eng_c19.engine], extended=[eng_c19.engine], replaye
 
 import eng_c20
 import eng_c02
+import eng_c09
+PROPS['C09'].update(engines=[eng_c09.engine], extended=[eng_c09.engine], replayers=[eng_c09.replayer])
 PROPS['C02'].update(engines=[eng_c02.engine], extended=[eng_c02.engine], replayers=[eng_c02.replayer])
 PROPS['C20'].setdefault('engines', []).append(eng_c20.engine)
 PROPS['C20'].setdefault('extended', []).append(eng_c20.engine)
